@@ -6,7 +6,7 @@
     has an odd number of terms ([Merge::from_vec] asserts it); theorems about the loop carry
     that guard. *)
 From Verif Require Import Base.Prelude Model.Merge Model.C01 Proofs.C01 Proofs.C01Simp
-  Proofs.C01Update Proofs.C01Checker Proofs.C01Deep Proofs.C01Resolved.
+  Proofs.C01Update Proofs.C01Checker Proofs.C01Deep Proofs.C01Resolved Proofs.C01Changes.
 Local Open Scope Z_scope.
 
 Section Statements.
@@ -129,6 +129,23 @@ End Statements.
 Theorem C01_okb_spec : forall c : C01.case, C01.okb c = true <-> C01_ok c.
 Proof. exact okb_spec. Qed.
 
+(** The last conjunct (multiset of changes) is implied by the mapping and write-back
+    conjuncts: it is a redundant cross-check computed without the mapping. *)
+Theorem C01_changes_law : forall (m s : list N) (mp : list nat) (e u : list N),
+  mapping_ok m s mp -> lands m mp e u ->
+  forall x, count N.eqb x (changes m u) = count N.eqb x (changes s e).
+Proof. exact changes_law. Qed.
+
+(** The model's own outputs pass the whole checker, for every input in the domain of the
+    Rust functions (odd arities at every level, edited form of the simplified arity). *)
+Theorem C01_model_ok : forall m nested n3 e,
+  Nat.odd (length m) = true ->
+  Nat.odd (length nested) = true -> Forall (fun x => Nat.odd (length x) = true) nested ->
+  wf_deep 3 n3 ->
+  length e = length (simplify N.eqb m) ->
+  C01_ok (model_case m nested n3 e).
+Proof. exact model_case_ok. Qed.
+
 Check @C01_simplify_den : forall T (eqb : T -> T -> bool), (forall x y, eqb x y = true <-> x = y) ->
   forall m v, den eqb (simplify eqb m) v = den eqb m v.
 Check @C01_flatten_den : forall T (eqb : T -> T -> bool) mm v, Nat.odd (length mm) = true -> Forall (fun m => Nat.odd (length m) = true) mm ->
@@ -161,3 +178,4 @@ Print Assumptions C01_simplify_resolves.
 Print Assumptions C01_mapping_sound.
 Print Assumptions C01_update_lands.
 Print Assumptions C01_okb_spec.
+Print Assumptions C01_model_ok.
